@@ -23,6 +23,7 @@ class Failure:
     line: int
     at_line: int | None = None     # where in the body it failed (call site / return site)
     detail: str = ""
+    source_assert: bool = False   # the failing obligation is an assert!-family macro written in the source of the tree (not a contract clause)
 
 
 @dataclass
@@ -104,6 +105,7 @@ def run_verus(world_path: str, unit: str, fn_names: list[str], cmap: dict, rlimi
         res.reason = "verus rejected the world (unsupported construct): " + "; ".join(d.get("message", "")[:200] for d in errors[:3])
         return res
     resource = False
+    world_lines = None
     for d in errors:
         msg = d.get("message", "")
         low = msg.lower()
@@ -130,7 +132,28 @@ def run_verus(world_path: str, unit: str, fn_names: list[str], cmap: dict, rlimi
         if not any(k in low for k in OBLIGATION_MSG):
             res.reason = "unclassified verus error: " + msg[:300]
             return res
-        res.failures.append(Failure(kind=msg, clause=clause, line=line, at_line=at,
+        src_assert = False
+        if clause is None and prim:
+            # does the failing obligation come from an assert!-family macro written in the source of this tree?  (rustc reports the span inside
+            # the macro definition, with the chain of expansions that leads to the call site)
+            def macros_of(sp):
+                out = []
+                e = sp.get("expansion")
+                while e:
+                    out.append((e.get("macro_decl_name") or "").strip())
+                    e = (e.get("span") or {}).get("expansion")
+                return out
+            fam = {"assert!", "debug_assert!", "assert_eq!", "assert_ne!", "debug_assert_eq!", "debug_assert_ne!"}
+            src_assert = all(any(m in fam for m in macros_of(sp)) for sp in prim)
+            if not src_assert:
+                try:
+                    if world_lines is None:
+                        world_lines = open(world_path).read().split("\n")
+                    src_assert = all(sp.get("file_name") == world_path and re.search(r"\b(debug_)?assert(_eq|_ne)?!\s*\(",
+                                     " ".join(world_lines[sp["line_start"] - 1: min(sp["line_end"], sp["line_start"] + 5)])) for sp in prim)
+                except Exception:
+                    src_assert = False
+        res.failures.append(Failure(kind=msg, clause=clause, line=line, at_line=at, source_assert=src_assert,
                                     detail="; ".join(f"{s['line_start']}:{s.get('label')}" for s in d.get("spans", []))))
     if res.failures:
         res.status = "failed"
